@@ -263,17 +263,33 @@ def lifecycle_check(prop, tier):
         chained = prop == "C05" and i > len(hists) - nchained
         scen.append(hist_to_scenario(h, i, "rust" if chained else pool, nf, diff=(prop == "C03" or i % 7 == 0),
                                      reuse_sites=(prop == "C07" or chained)))
+    # the same behaviours again while the thread is already unwinding from an unrelated panic (a sample):
+    # validated by the trace specification only (the verifier is silent then, everything else is unchanged)
+    n_plain = len(scen)
+    if prop not in ("C07",):
+        for i in range(0, n_plain, 5):
+            sc = json.loads(json.dumps(scen[i]))
+            sc["id"] = len(scen) + 1
+            sc["ambient"] = True
+            sc["pool"] = "rust"
+            for life in sc["lives"]:
+                for st in life["steps"]:
+                    if st.get("op") == "install" and st.get("flavour") not in JUMP_FLAVOURS + ["counted", "bool"]:
+                        st["flavour"] = "raw"
+            # sites are per process: fine (each scenario is its own child)
+            scen.append(sc)
+            hists.append(hists[i])
     groups, order, _ = vlib.run_harness("lifecycle", scen, "lifecycle_" + prop)
     # spec -> impl
     nviol = 0
     for i, h in enumerate(hists, 1):
         evs = groups.get(i, [])
-        key = history_key(h)
+        key = history_key(h) + (" [ambient unwinding]" if i > n_plain else "")
         if any(x["act"] == "Install" for x in h):
             run.note_case(key)
         else:
             run.evaluations += 1
-        bad = compare_replay(h, evs, nf)
+        bad = compare_replay(h, evs, nf) if i <= n_plain else []
         mine = [b for b in bad if b[0] == prop or (b[0] == "CRASH" and prop in ("C02", "C05"))
                 or (prop == "C07" and b[0] == "C06")]
         if mine:
@@ -297,7 +313,7 @@ def lifecycle_check(prop, tier):
             reached, total = tv["progress"][sid]
             evs = groups.get(sid, [])
             first_bad = evs[reached] if reached < len(evs) else None
-            key = "%s history=%s" % (prop, history_key(hists[sid - 1]))
+            key = "%s history=%s%s" % (prop, history_key(hists[sid - 1]), " [ambient unwinding]" if sid > n_plain else "")
             run.violation(key, {"behaviour": hists[sid - 1], "scenario": scen[sid - 1],
                                 "trace_rejected_at": reached, "first_unmatched_event": first_bad,
                                 "events": evs[max(0, reached - 12):reached + 3]})
